@@ -42,8 +42,8 @@ namespace pika::detail {
         while (value_ < count)
         {
             // return false if unblocked by timeout expiring
-            if (cond_.wait_until(l, abs_time, "counting_semaphore::wait_until") !=
-                pika::threads::detail::thread_restart_state::unknown)
+            if (cond_.wait_until(l, abs_time, "counting_semaphore::wait_until") ==
+                pika::threads::detail::thread_restart_state::timeout)
             {
                 return false;
             }
